@@ -15,8 +15,7 @@ import (
 	xmpp "gosrc.io/xmpp"
 )
 
-// C20: ensurePort / NewClientTransport / NewComponentTransport / WebsocketTransport.IsSecure /
-// NewChecker vs Model/Addr.v
+// C20: ensurePort / NewClientTransport / NewComponentTransport / NewChecker vs Model/Addr.v
 type c20In struct {
 	Addr  string `json:"addr"`
 	Port  int    `json:"port"`            // second argument given to ensurePort (the constructors always use 5222)
@@ -34,7 +33,7 @@ func (c20) ID() string    { return "C20" }
 func (c20) RunFn() string { return "run_C20" }
 func (c20) Workers() int  { return 8 }
 func (c20) Rule() string {
-	return "structured addresses: DNS names (digit/hyphen labels, single label, trailing dot, xn--), IPv4, IPv6 (8 groups, :: at every position and run length, embedded and mapped IPv4, %zone, mixed case) bare or bracketed, x port absent/present, x ensurePort port argument in {5222,0,negative,large}; every port 0..65535 for one host per form (thorough; a sample in quick); all strings of length <= 4 (thorough: <= 5) plus random strings of length <= 8 over {a : [ ] . 1 w s / W S}; ws/wss URLs with the scheme in every letter case, hosts named ws/wss (any case) with ports; distinct = distinct (address, port argument); non-trivial = structured form, or a raw string containing ':' '[' or ']'"
+	return "structured addresses: DNS names (digit/hyphen labels, single label, trailing dot, xn--), IPv4, IPv6 (8 groups, :: at every position and run length, embedded and mapped IPv4, %zone, mixed case) bare or bracketed, x port absent/present, x ensurePort port argument in {5222,0,negative,large}; every port 0..65535 for one host per form (thorough; a sample in quick); all strings of length <= 4 (thorough: <= 5) plus random strings of length <= 8 over {a : [ ] . 1 w s / W S}; ws/wss URLs with the scheme in every letter case, hosts named ws/wss (any case) with ports; addresses with white space at either end are run (no panic) but compared as a constant (not an address form of the property); distinct = distinct (address, port argument); non-trivial = structured form, or a raw string containing ':' '[' or ']'"
 }
 
 const c20Alphabet = "a:[].1ws/WS"
@@ -199,6 +198,7 @@ func (c20) Gen(r *rand.Rand, tier string) []interface{} {
 	// fixed corners: scheme prefixes, the ws/wss host names, degenerate brackets
 	for _, s := range []string{"", "ws:", "wss:", "ws://example.com/ws", "wss://example.com:5443/ws", "ws://[::1]:80/x",
 		"ws:/x", "wss", "ws", "w", "wsx://a", "WS://a", "Wss://a", " ws://a", "http://a", "tcp://a:1", "ws:a:b", "wss:::",
+		"ws://a ", "example.com\n", "\t[::1]:5222", " ", "\u00a0ws://a", "ws://a\u2003",
 		"ws://", "wss://", "WSS://", "wS://a", "wSs://[::1]:5443/ws", "WS:5222", "ws:5222", "wss:5347", "ws:/", "ws//a", "ws:a", "://a", "xws://a", "w://a", "s://a",
 		"w\u017f://a", "w\u017fs://a", "\u212aws://a", "ws\u2236//a", "ws:\u2215/a", "ws://a://b", "a://ws://b", "wss://ws://b",
 		"[", "]", "[]", "[]:", "[]:1", "[::1]:", ":", "::", ":::", ":1", "a:", "[a", "[a]b", "[a]b:1", "[a]:b:1", "[a]::1", "a]:1", "a[:1",
@@ -389,7 +389,7 @@ func c20Transport(t xmpp.Transport, err error) Sx {
 	case *xmpp.XMPPTransport:
 		return L(Z(0), SBytes(x.Config.Address), c20Split(x.Config.Address))
 	case *xmpp.WebsocketTransport:
-		return L(Z(1), SBytes(x.Config.Address), B(x.IsSecure()))
+		return L(Z(1), SBytes(x.Config.Address))
 	}
 	return L(Z(9), SBytes(fmt.Sprintf("%T", t)))
 }
@@ -411,17 +411,31 @@ func (c20) Run(inp interface{}) Sx {
 	ep := xmpp.VerifEnsurePort(in.Addr, in.Port)
 	ct := xmpp.NewClientTransport(xmpp.TransportConfiguration{Address: in.Addr})
 	pt, err := xmpp.NewComponentTransport(xmpp.TransportConfiguration{Address: in.Addr})
-	return L(SBytes(ep), c20Split(ep), c20Split(in.Addr), c20Transport(ct, nil), c20Transport(pt, err), c20Checker(in.Addr))
+	full := L(SBytes(ep), c20Split(ep), c20Split(in.Addr), c20Transport(ct, nil), c20Transport(pt, err), c20Checker(in.Addr))
+	if c20Excluded(in.Addr) {
+		// exercised (no panic), but nothing is asserted about it: constant on both sides
+		return L(Z(-1))
+	}
+	return full
 }
 
 func (c20) Input(inp interface{}) Sx {
 	in := inp.(c20In)
-	return L(SBytes(in.Addr), Zi(in.Port))
+	return L(SBytes(in.Addr), Zi(in.Port), B(c20Excluded(in.Addr)))
 }
+
+// c20Excluded: white space (unicode.IsSpace) at either end of the address. Such a string is
+// none of the address forms the property quantifies over (host name, IPv4, bracketed or bare
+// IPv6, with or without a port; URLs), so whether the library trims it or not is not decided
+// by the property.
+func c20Excluded(addr string) bool { return strings.TrimSpace(addr) != addr }
 
 // Direct oracle (no model): the property's own predicate on what was observed.
 func (c20) Oracle(inp interface{}, obs Sx) (string, string) {
 	in := inp.(c20In)
+	if c20Excluded(in.Addr) {
+		return "", ""
+	}
 	if len(obs.L) != 6 {
 		return "observation shape", "shape"
 	}
@@ -432,7 +446,7 @@ func (c20) Oracle(inp interface{}, obs Sx) (string, string) {
 		}
 		return t.L[0].Z
 	}
-	scheme, secure := c20WsURL(in.Addr)
+	scheme := c20WsURL(in.Addr)
 	shape := ""
 	if in.Form != "raw" {
 		shape = "-" + in.Form + "-noport"
@@ -446,9 +460,6 @@ func (c20) Oracle(inp interface{}, obs Sx) (string, string) {
 		}
 		if kind(comp) != 2 {
 			return fmt.Sprintf("%q is a URL with the ws/wss scheme: NewComponentTransport must refuse it with ErrTransportProtocolNotSupported (got kind %d)", in.Addr, kind(comp)), "scheme-component"
-		}
-		if len(client.L) != 3 || (client.L[2].Z == 1) != secure {
-			return fmt.Sprintf("%q: WebsocketTransport.IsSecure must be %v", in.Addr, secure), "scheme-secure"
 		}
 	} else {
 		if kind(client) != 0 {
@@ -526,11 +537,11 @@ func (c20) Oracle(inp interface{}, obs Sx) (string, string) {
 }
 
 // c20WsURL: is a a URL whose scheme (the part before the first "://"), compared without
-// regard to ASCII letter case (RFC 3986 3.1), is ws or wss; secure = wss.
-func c20WsURL(a string) (ws, secure bool) {
+// regard to ASCII letter case (RFC 3986 3.1), is ws or wss.
+func c20WsURL(a string) bool {
 	i := strings.Index(a, "://")
 	if i < 0 {
-		return false, false
+		return false
 	}
 	b := []byte(a[:i])
 	for j, c := range b {
@@ -538,17 +549,15 @@ func c20WsURL(a string) (ws, secure bool) {
 			b[j] = c + 'a' - 'A'
 		}
 	}
-	switch string(b) {
-	case "ws":
-		return true, false
-	case "wss":
-		return true, true
-	}
-	return false, false
+	return string(b) == "ws" || string(b) == "wss"
 }
 
 func (c20) Key(inp interface{}) (string, bool) {
 	in := inp.(c20In)
+	if c20Excluded(in.Addr) {
+		hist("excluded:outer-white-space")
+		return in.Addr + "|" + strconv.Itoa(in.Port), false
+	}
 	cls := in.Form
 	if in.Form != "raw" {
 		if in.HasP {
@@ -570,7 +579,7 @@ func (c20) Key(inp interface{}) (string, bool) {
 		}
 	}
 	hist("form:" + cls)
-	if ws, _ := c20WsURL(in.Addr); ws {
+	if c20WsURL(in.Addr) {
 		hist("ws-url")
 		if !strings.HasPrefix(in.Addr, "ws") {
 			hist("ws-url-upper-case")
